@@ -455,8 +455,9 @@ func (vc *FuncVC) loopWrites(st *State, fr *Frame, lp *loop) *loopWriteSet {
 							if !ok {
 								continue
 							}
-							for bi, fv := range f.FreeVars {
-								if fv.Name() == id.Name && bi < len(mc.Bindings) && definedOutside(mc.Bindings[bi], lp) {
+							fnames := vc.eng.freeVarNames(f, ct, vc.w)
+							for bi := range f.FreeVars {
+								if fnames[bi] == id.Name && bi < len(mc.Bindings) && definedOutside(mc.Bindings[bi], lp) {
 									ws.volatileCells = append(ws.volatileCells, mc.Bindings[bi])
 								}
 							}
